@@ -57,6 +57,30 @@ def build_harness(profile="verif"):
     return HARNESS / "target" / profile / "rpm-verif"
 
 
+HARNESS_MIN = VERIF / "harness-min"
+
+
+def run_harness_min(out_path):
+    """Build the feature-less mini harness (the library with `default-features = false`) against /repo's current
+    working tree, run it and store the events it prints."""
+    lock = HARNESS_MIN / "Cargo.lock"
+    if not lock.exists():
+        shutil.copy("/repo/Cargo.lock", lock)
+    t0 = time.time()
+    p = subprocess.run(["cargo", "build", "--profile", "verif", "--offline"], cwd=HARNESS_MIN, env=dict(os.environ, CARGO_NET_OFFLINE="true"),
+                       stdout=subprocess.PIPE, stderr=subprocess.STDOUT, text=True)
+    if p.returncode != 0:
+        log(p.stdout[-6000:])
+        raise ToolError("cargo build of harness-min failed")
+    r = subprocess.run([str(HARNESS_MIN / "target" / "verif" / "rpm-verif-min")], cwd=VERIF, stdout=subprocess.PIPE, stderr=subprocess.PIPE, text=True, timeout=300)
+    log(f"[build+run] harness-min {time.time()-t0:.1f}s rc={r.returncode}")
+    if r.returncode != 0 or not r.stdout.strip():
+        log(r.stderr[-3000:])
+        raise ToolError(f"harness-min exited {r.returncode}")
+    Path(out_path).write_text(r.stdout)
+    return out_path
+
+
 def run_harness(binary, args, timeout=1800, env=None, check=True, stdin=None):
     e = dict(os.environ)
     e.setdefault("RUST_BACKTRACE", "0")
